@@ -137,6 +137,32 @@ theorem C09_no_reflection (rest : List Nat) (ntsOk : Bool) :
   · rfl
   · exact absurd (h.mp hs).2.2.1 hw
 
+/-- The SCION listener applies the same decision to the UDP payload of a parsed SCION packet
+    (no 2048-byte receive buffer there): same characterisation without the upper bound. -/
+theorem C09_scion_payload_iff (x : Nat) (t : List Nat) (ntsOk : Bool) (hx : x < 256) :
+    shouldReplyPayload (x :: t) ntsOk = true ↔
+      (48 ≤ (x :: t).length ∧ WellFormedLvm x ∧ ((x :: t).length > 48 → ntsOk = true)) := by
+  have hv := C09_validateRequest_iff x hx
+  unfold shouldReplyPayload
+  rcases C14.ntp_decode_total (x :: t) with ⟨hl, he⟩ | ⟨hl, p, hp⟩
+  · simp only [he]; constructor
+    · intro h; cases h
+    · intro h; omega
+  · have hlvm := C14.ntp_decode_lvm x t p hp
+    simp only [hp, hlvm, packetLen]
+    rw [← hv]
+    simp only [List.length_cons] at hl ⊢
+    by_cases hgt : t.length + 1 > 48 <;> cases ntsOk <;> cases validateRequest x <;>
+      simp <;> omega
+
+theorem C09_scion_no_reflection (rest : List Nat) (ntsOk : Bool) :
+    shouldReplyPayload (0x24 :: rest) ntsOk = false := by
+  have h := C09_scion_payload_iff 0x24 rest ntsOk (by decide)
+  have hw : ¬ WellFormedLvm 0x24 := by decide
+  cases hs : shouldReplyPayload (0x24 :: rest) ntsOk
+  · rfl
+  · exact absurd (h.mp hs).2.1 hw
+
 /-- More generally: no packet in server mode, or of a version above 4, or with version 0, is
     answered, for every one of the 256 first bytes. -/
 theorem C09_no_reply_to_non_requests : ∀ x < 256,
